@@ -53,7 +53,7 @@ NUC10 = b"ACGTacgtUu"
 AMBIG = b"NnRYKM-*."
 ANY = bytes(range(4, 256))          # bytes 0..3 are left unspecified by the properties
 
-def gen_seq(r, n, amb_pct=None, alpha=None):
+def gen_seq(r, n, amb_pct=None, alpha=None, ascii_only=False):
     """structured sequence: mostly nucleotides, ambiguity rate drawn per case"""
     if amb_pct is None: amb_pct = r.pick([0, 1, 5, 15])
     if alpha is None: alpha = r.pick([b"AC", b"A", NUC, NUC10])
@@ -61,7 +61,7 @@ def gen_seq(r, n, amb_pct=None, alpha=None):
     if amb_pct and n:
         for i in range(n):
             if r.below(100) < amb_pct:
-                out[i] = r.pick(AMBIG) if r.below(3) else r.pick(ANY)
+                out[i] = r.pick(AMBIG) if (ascii_only or r.below(3)) else r.pick(ANY)
     return bytes(out)
 
 def gen_lowc(r, n, amb=True):
